@@ -932,9 +932,39 @@ func checkAliased(c Case, box orb.Bound, concat orb.MultiLineString) error {
 	return nil
 }
 
+// productUnderflow: the input family of C08's known finding clip-intersect-product-underflow (some
+// x-quantity times some y-quantity of a segment - coordinate difference, distance of an end to a
+// box edge, box size - is non-zero and below 2^-1000) evaluated on a line; only counted here: line
+// clipping uses the same intersect(), and the exact model judges these cases like all others.
+func productUnderflow(box orb.Bound, ls orb.LineString) bool {
+	const lim = 0x1p-1000
+	for i := 0; i+1 < len(ls); i++ {
+		a, b := ls[i], ls[i+1]
+		var q [2][]float64
+		for d := 0; d < 2; d++ {
+			q[d] = []float64{math.Abs(b[d] - a[d]), math.Abs(a[d] - box.Min[d]), math.Abs(a[d] - box.Max[d]),
+				math.Abs(b[d] - box.Min[d]), math.Abs(b[d] - box.Max[d]), box.Max[d] - box.Min[d]}
+		}
+		for _, x := range q[0] {
+			for _, y := range q[1] {
+				if x != 0 && y != 0 && x*y < lim {
+					return true
+				}
+			}
+		}
+	}
+	return false
+}
+
 func checkCase(c Case) error {
 	box := c.Box.Bound()
 	lines := c.lines()
+	for _, ls := range lines {
+		if productUnderflow(box, ls) {
+			stats.Class("note: line in the product-underflow family of C08's known finding (judged like all others)")
+			break
+		}
+	}
 	var concat orb.MultiLineString
 	for i, ls := range lines {
 		got, err := checkLine(box, ls, c.Open)
